@@ -103,7 +103,8 @@ private:
             png_set_palette_to_rgb( this->get()->_struct );
         }
 
-        if( this->_info._num_trans > 0 )
+        // as in reader::apply; _info._num_trans is only filled in on request
+        if( png_get_valid( this->get()->_struct, this->get()->_info, PNG_INFO_tRNS ) )
         {
             png_set_tRNS_to_alpha( this->get()->_struct );
         }
